@@ -120,3 +120,47 @@ case: (eqVneq y 0) => [-> _|yn].
       - by rewrite e4 !real_normK ?num_real // addrC.
 Qed.
 End P.
+
+(* C08: the 2x2 core of one step of TridiagQR::matrix_QtHQ is the congruence G^T [x y; y z] G with G = [c s; -s c] *)
+From SV Require Import TridiagQR.
+Section TQ.
+Variable F : rcfType.
+Theorem qthq_core_similarity (c s x y z u1 u2 : F) :
+  let '(nd, nl, nd1) := qthq_core (OpsF F) c s x y z in
+  nd * u1 ^+ 2 + 2%:R * nl * u1 * u2 + nd1 * u2 ^+ 2 =
+  x * (c * u1 + s * u2) ^+ 2 + 2%:R * y * (c * u1 + s * u2) * (- s * u1 + c * u2) + z * (- s * u1 + c * u2) ^+ 2.
+Proof. by rewrite /qthq_core /= (_ : BinPos.Pos.to_nat 2 = 2%N) //; ring. Qed.
+End TQ.
+
+(* C08: the reflector applications of DoubleShiftQR (apply_PX / apply_XP work entry-triple by entry-triple through hh3 / hh2):
+   for a unit vector u they are involutions that preserve inner products, i.e. P = I - 2 u u' is orthogonal and symmetric *)
+From SV Require Import DoubleShift.
+Section HH.
+Variable F : rcfType.
+Notation O := (OpsF F).
+Theorem hh3_isometry (u0 u1 u2 x0 x1 x2 y0 y1 y2 : F) : u0 ^+ 2 + u1 ^+ 2 + u2 ^+ 2 = 1 ->
+  let '(a0, a1, a2) := hh3 O u0 u1 u2 x0 x1 x2 in let '(b0, b1, b2) := hh3 O u0 u1 u2 y0 y1 y2 in
+  a0 * b0 + a1 * b1 + a2 * b2 = x0 * y0 + x1 * y1 + x2 * y2.
+Proof.
+move=> h; rewrite /hh3 /two /= (_ : BinPos.Pos.to_nat 2 = 2%N) //.
+set ux := u0 * x0 + u1 * x1 + u2 * x2. set uy := u0 * y0 + u1 * y1 + u2 * y2.
+apply/eqP; rewrite -subr_eq0; apply/eqP.
+have -> : (x0 - (2%:R * u0 * x0 + 2%:R * u1 * x1 + 2%:R * u2 * x2) * u0) * (y0 - (2%:R * u0 * y0 + 2%:R * u1 * y1 + 2%:R * u2 * y2) * u0) +
+          (x1 - (2%:R * u0 * x0 + 2%:R * u1 * x1 + 2%:R * u2 * x2) * u1) * (y1 - (2%:R * u0 * y0 + 2%:R * u1 * y1 + 2%:R * u2 * y2) * u1) +
+          (x2 - (2%:R * u0 * x0 + 2%:R * u1 * x1 + 2%:R * u2 * x2) * u2) * (y2 - (2%:R * u0 * y0 + 2%:R * u1 * y1 + 2%:R * u2 * y2) * u2) -
+          (x0 * y0 + x1 * y1 + x2 * y2) = 4%:R * ux * uy * (u0 ^+ 2 + u1 ^+ 2 + u2 ^+ 2 - 1) by rewrite /ux /uy; ring.
+by rewrite h subrr mulr0.
+Qed.
+
+Theorem hh3_involution (u0 u1 u2 x0 x1 x2 : F) : u0 ^+ 2 + u1 ^+ 2 + u2 ^+ 2 = 1 ->
+  let '(a0, a1, a2) := hh3 O u0 u1 u2 x0 x1 x2 in hh3 O u0 u1 u2 a0 a1 a2 = (x0, x1, x2).
+Proof.
+move=> h; rewrite /hh3 /two /= (_ : BinPos.Pos.to_nat 2 = 2%N) //.
+set ux := u0 * x0 + u1 * x1 + u2 * x2.
+have k : forall ui xi : F, xi - (2%:R * u0 * x0 + 2%:R * u1 * x1 + 2%:R * u2 * x2) * ui -
+   (2%:R * u0 * (x0 - (2%:R * u0 * x0 + 2%:R * u1 * x1 + 2%:R * u2 * x2) * u0) + 2%:R * u1 * (x1 - (2%:R * u0 * x0 + 2%:R * u1 * x1 + 2%:R * u2 * x2) * u1) +
+    2%:R * u2 * (x2 - (2%:R * u0 * x0 + 2%:R * u1 * x1 + 2%:R * u2 * x2) * u2)) * ui = xi + 4%:R * ux * ui * (u0 ^+ 2 + u1 ^+ 2 + u2 ^+ 2 - 1).
+  by move=> ui xi; rewrite /ux; ring.
+by rewrite !k h subrr !mulr0 !addr0.
+Qed.
+End HH.
